@@ -646,8 +646,13 @@ class Storage:
         if not r['ok']:
             self.files.pop(target, None)
             return rec.log('failed')
-        with open(p, encoding='utf-8') as fh:
-            got = ast.literal_eval(fh.read())
+        try:
+            with open(p, encoding='utf-8') as fh:
+                got = ast.literal_eval(fh.read())
+        except (SyntaxError, ValueError, UnicodeError) as e:
+            rec.check('C11.literal_eq_documented', False, lambda: f'python-literal text of {target} does not evaluate: {e!r}')
+            self.files.pop(target, None)
+            return rec.log('unreadable')
         objs, props = self.labels[info['li']]
         if info['has_lat'] is None:     # e.g. an unpickled context: adopt what the library says
             info['has_lat'] = 'lattice' in got
